@@ -261,3 +261,17 @@ Lemma cat_result_kind_plain : forall k, k = mkty false RNone -> cat_result_kind_
 Proof. intros k ->. reflexivity. Qed.
 Lemma cat_single_nested_refuted : exists n, cat_single_nested_arity_m n <> cat_single_nested_arity_spec n.
 Proof. exists 2%nat. discriminate. Qed.
+
+(** construction / assignment matrix: the header's requires-clauses are the standard's constraints, for all 7 x 7
+    element type combinations (pair) and for tuples of any arity *)
+Lemma pair_traits_agree : forall a b : elem, pair_traits_m a b = pair_traits_spec a b.
+Proof. intros a b; destruct a; destruct b; reflexivity. Qed.
+Lemma tuple_traits_agree : forall es : list elem, tuple_traits_m es = tuple_traits_spec es.
+Proof. reflexivity. Qed.
+
+Lemma refwrap_ops_agree : forall a b, refwrap_ops_m a b = refwrap_ops_spec a b.
+Proof. intros a b. unfold refwrap_ops_m, refwrap_ops_spec. f_equal. f_equal. lia. Qed.
+Lemma fref_ops_agree : forall v, fref_ops_m v = fref_ops_spec v.
+Proof. reflexivity. Qed.
+Lemma notfn_static_agree : forall v, notfn_static_m v = notfn_static_spec v.
+Proof. intros v. unfold notfn_static_m, notfn_static_spec. destruct (Z.ltb_spec v 0); destruct (Z.leb_spec 0 v); try reflexivity; lia. Qed.
